@@ -21,9 +21,9 @@ ASSUMPTIONS = [
     "persistent layer modelled as finite maps (keeper record, native balance record b_<addr>_OLT, contract storage, code) with the "
     "read-your-writes behaviour of storage.State (C09, after fix 34ba69a); gas metering of the store is not modelled (no gas "
     "calculator attached in the harness)",
-    "logs, the access list and CreateAccount over an EXISTING account are covered by the three-way correspondence only (they are "
-    "part of both models; C16_bisim is proved for CreateAccount(fresh)/balance/nonce/code/storage/refund/self-destruct/"
-    "Exist/Empty/Snapshot/RevertToSnapshot/Finalise/block commit)",
+    "CreateAccount over an EXISTING account is covered by the three-way correspondence only (C16_bisim is proved for all 31 "
+    "interface operations, CreateAccount only for accounts that do not exist yet, which is what evm.create does outside an "
+    "address collision)",
     "the Finalise case of C16_bisim is proved under a side condition evaluated at run time on the adapter model (class 5, "
     "fin_okb): every live object Finalise does not treat as dirty equals its persisted image, and every non-zero dirty slot of an "
     "object written back has its original value cached; it is computed on every generated Finalise step (never false outside "
